@@ -46,6 +46,7 @@ PROPS = {
         "assumptions": COMMON_ASSUMPTIONS + ["the mapped function is pure and is applied to scalars (uninterpreted function of its bound arguments)", "jax.vmap contract: trace-like, out[i] = f(mapped arguments at i)"],
     },
     "C15": {
+        "lean": True,
         "contracts": [
             "lcm.ndimage._compute_indices_and_weights",
             "lcm.ndimage.map_coordinates",
@@ -62,6 +63,7 @@ PROPS = {
         "assumptions": COMMON_ASSUMPTIONS + ["array extents >= 2 along interpolated axes (grids with one point are a C12 matter)"],
     },
     "C16": {
+        "lean": True,
         "contracts": ["lcm.grids.LinspaceGrid", "lcm.grids.LogspaceGrid", "lcm.grids.DiscreteGrid", "lcm.grid_helpers.linspace"],
         "families": {
             "quick": "continuous: start/stop kinds {int, float, +inf, -inf, nan, non-numeric} x n_points kinds {int, non-numeric}; discrete: category classes with <= 2 fields of kinds {int, float, bool, str, missing} and non-dataclasses. Numeric values symbolic (all ints / reals).",
@@ -149,6 +151,7 @@ PROPS = {
         "assumptions": COMMON_ASSUMPTIONS + ["indexer entries of the evaluated labels are valid positions (feasible states)"],
     },
     "C11": {
+        "lean": True,
         "contracts": [
             "C11.affine-utility-step",
             "C11.linear-expectation",
@@ -234,6 +237,7 @@ PROPS = {
         "level_text": "Every rewriting is decided through the specification: the period value is proved equal to the Bellman maximum over the set of grid combinations passing all filters and constraints, with variables bound by name and axes in the documented layout, for each skeleton AND its rewritten variants; equal specifications then give equal values.",
     },
     "C20": {
+        "lean": True,
         "contracts": ["lcm.discrete_problem._segment_logsumexp", "lcm.discrete_problem._calculate_emax_extreme_value_shocks"],
         "families": {"quick": "segment form: trailing rank 0..1, all sizes and segmentations with non-empty segments; axis form: ranks 1..2 x every choice-axis subset x segments on/off", "thorough": "trailing rank 0..2; ranks 1..3"},
         "not_decided": ["finiteness in floating-point arithmetic for extreme value/scale", "the limit s -> 0 beyond the bound max <= result <= max + s log n", "shift equivariance (result + c for values + c) is not stated as a separate obligation; it follows from the identity", "the axis form is checked up to the trusted jax.scipy.special.logsumexp (how it is called: argument values/scale, exactly the dense choice axes, result multiplied by scale)"],
